@@ -256,4 +256,21 @@ PROPS = {
             "a call written after a missing key / unknown name yields the empty value (nothing to call); a call of an existing non-function value is an error",
         ],
     },
+    "C19": {
+        "quick": [
+            {"test": "TestC19Chain", "checks": 60000, "shards": 4},
+            {"test": "TestC19Unknown", "checks": 3000},
+            {"test": "TestC19DoubleRegistration", "kind": "plain"},
+        ],
+        "thorough": [
+            {"test": "TestC19Chain", "checks": 3200000, "shards": 16},
+            {"test": "TestC19Unknown", "checks": 30000},
+            {"test": "TestC19DoubleRegistration", "kind": "plain"},
+        ],
+        "assumptions": [
+            "filters written inside array literals are outside the listed positions (they are silently ignored on this tree; C02 and C03 exercise that route)",
+            "nondeterministic filters (random) are detected at run start by calling every registered filter several times on fixed inputs, and left out",
+            "observation goes through the public Value API (String, IsTrue, Iterate, Integer, Float, EqualValueTo) under autoescape off",
+        ],
+    },
 }
